@@ -4,6 +4,11 @@ import copy
 import logging
 from lib import P1, P2, PR, FIG55, mk_game
 
+
+def timed(fn, secs=5):
+    import solver_checks as SC
+    return SC.timed(fn, secs)
+
 BASES = [FIG55,
          mk_game([P1, P2, PR, PR], [[("a", 1), ("b", 2)], [("a", 2), ("b", 3)], [(0.5, 3), (0.5, 2)], [(1, 3)]], [1, 0, 2, 0], [3]),
          mk_game([PR, PR, PR], [[(1, 1)], [(1, 2)], [(1, 2)]], [0, 0, 0], [2])]
@@ -49,7 +54,7 @@ def gen_malformed(rng, tier):
         for rule, fn in items:
             h = copy.deepcopy(base)
             fn(h)
-            yield dict(rule=rule, game=h)
+            yield dict(rule=rule, game=h, base=base)
 
 
 def check_malformed(inp, mods, rng=None):
@@ -59,12 +64,41 @@ def check_malformed(inp, mods, rng=None):
     for prune in (True, False):
         try:
             sg = tad.StochasticGame(**copy.deepcopy(g), prune_states=prune)
-            r = sg.solve()
+            r = timed(sg.solve)
             F.append(({'C09'}, 'rejected-with-valueerror', f'[{inp["rule"]}, prune={prune}] solve returned a result for the malformed game {g!r}'))
         except ValueError:
             pass
         except BaseException as e:   # noqa
             F.append(({'C09', 'C06'}, 'rejected-with-valueerror', f'[{inp["rule"]}, prune={prune}] solve raised {type(e).__name__}: {e} (not ValueError) for {g!r}'))
+    # the same for a description that BECOMES malformed after it was solved: the object and the lists are the ones already
+    # solved once; the caller then edits its own lists in place (they are aliased by the object) and solves again
+    if inp.get('base') is not None:
+        for prune in (True, False):
+            w = copy.deepcopy(inp['base'])
+            try:
+                sg = tad.StochasticGame(**w, prune_states=prune)
+                timed(sg.solve)
+            except ValueError:
+                pass
+            except BaseException as e:   # noqa
+                F.append(({'C09', 'C06'}, 'rejected-with-valueerror', f'[{inp["rule"]}, prune={prune}] the well-formed base game raised {type(e).__name__}: {e}'))
+                continue
+            for key in ('rewards', 'players', 'transition_list', 'final_states'):
+                new = copy.deepcopy(g[key])
+                if key == 'transition_list':
+                    for s_ in range(min(len(new), len(w[key]))):
+                        if isinstance(new[s_], list) and isinstance(w[key][s_], list):
+                            w[key][s_][:] = new[s_]
+                            new[s_] = w[key][s_]
+                w[key][:] = new
+            for how, mk in (('the same object', lambda: sg), ('a new object on the same lists', lambda: tad.StochasticGame(**w, prune_states=prune))):
+                try:
+                    timed(mk().solve)
+                    F.append(({'C09'}, 'rejected-with-valueerror', f'[{inp["rule"]}, prune={prune}] after a successful solve the caller\'s lists were edited in place to the malformed {g!r}: solving {how} again returned a result'))
+                except ValueError:
+                    pass
+                except BaseException as e:   # noqa
+                    F.append(({'C09', 'C06'}, 'rejected-with-valueerror', f'[{inp["rule"]}, prune={prune}] after a successful solve the caller\'s lists were edited in place to the malformed {g!r}: solving {how} again raised {type(e).__name__}: {e} (not ValueError)'))
     lvl = logging.getLogger().level
     logging.getLogger().setLevel(logging.CRITICAL + 1)
     try:
